@@ -7,7 +7,10 @@
 (*                                matrix the real agent starts from (mode "relative")                 *)
 (*   event.post[s]                projection of slot s after the operation: nil, layer (parameters    *)
 (*                                of the network's output layer), dim / sq (shape of sigma_inv),      *)
-(*                                S = sigma_inv in units of 1e-6 (rounded)                            *)
+(*                                S = sigma_inv in units of 1e-6 (rounded), lam = <<n, d>> the        *)
+(*                                agent's own `lamb` attribute (members may differ: checkpoints of    *)
+(*                                other agents, lambda in the hyper-parameter mutation configuration) *)
+(*   create events                lam0 = the lambda the constructor was called with                   *)
 (*   decide events                feats = gradient feature of every arm, recomputed by the driver     *)
 (*                                from the agent's network before the call; arm = returned action     *)
 (* Rebuilding operations are matched against both outcomes the property allows (carry | reinit).      *)
@@ -44,6 +47,7 @@ Post ==
        ELSE /\ Check("slot holds an agent", ~p.nil)
             /\ Check("size of the confidence matrix = number of parameters of the output layer", p.sq /\ p.dim = p.layer)
             /\ Check("output layer has the size the operation produced", p.layer = ag'[s].layer)
+            /\ Check("the agent's lambda is the one the operation produced (constructor's / source's / unchanged)", p.lam = ag'[s].lam)
             /\ IF s = Target /\ act'.out \in {"init", "reinit"}
                THEN Check("freshly initialised confidence matrix = (1/lambda) I", MatClose(p, ag'[s]))
                ELSE IF s = Target
@@ -51,10 +55,11 @@ Post ==
                ELSE Check("confidence matrix of an agent that did not take part is unchanged", MatClose(p, ag'[s]))
 
 ObsLayer(s) == Ev.post[s].layer
+ObsLam(s)   == Ev.post[s].lam
 
 TCreate == /\ Ev.op = "create"
            /\ Check("returns without raising", Ev.exc = "")
-           /\ Create(Ev.a, ObsLayer(Ev.a)) /\ Post
+           /\ Create(Ev.a, ObsLayer(Ev.a), Ev.lam0) /\ Post
 TDecide ==
   /\ Ev.op = "decide"
   /\ Check("returns without raising", Ev.exc = "")
@@ -64,9 +69,11 @@ TDecide ==
   /\ Decide(Ev.a, Ev.feats[Ev.arm + 1])
   /\ Post
 TLearn  == Ev.op = "learn" /\ Learn(Ev.a) /\ Post
+TTest   == Ev.op = "test" /\ Test(Ev.a) /\ Post
 TMutate == /\ Ev.op = "mutate"
            /\ Check("returns without raising", Ev.exc = "")
-           /\ \E out \in Outs : Mutate(Ev.a, Ev.kind, ObsLayer(Ev.a), out) /\ Post
+           /\ Check("only a hyper-parameter mutation changes lambda", Ev.kind = "hp" \/ ObsLam(Ev.a) = ag[Ev.a].lam)
+           /\ \E out \in Outs : Mutate(Ev.a, Ev.kind, ObsLayer(Ev.a), ObsLam(Ev.a), out) /\ Post
 TClone  == /\ Ev.op = "clone"
            /\ Check("returns without raising", Ev.exc = "")
            /\ \E out \in Outs : Clone(Ev.a, Ev.c, ObsLayer(Ev.c), out) /\ Post
@@ -79,7 +86,7 @@ TLoadInto == /\ Ev.op = "loadinto"
              /\ \E out \in Outs : LoadInto(Ev.f, Ev.a, ObsLayer(Ev.a), out) /\ Post
 
 TAccept == /\ l = Len(T.ev) + 1 /\ PrintT(<<"ACCEPT", tid>>) /\ l' = l + 1 /\ UNCHANGED <<vars, tid>>
-TNext == \/ (l <= Len(T.ev) /\ (TCreate \/ TDecide \/ TLearn \/ TMutate \/ TClone \/ TSave \/ TLoadNew \/ TLoadInto)
+TNext == \/ (l <= Len(T.ev) /\ (TCreate \/ TDecide \/ TLearn \/ TTest \/ TMutate \/ TClone \/ TSave \/ TLoadNew \/ TLoadInto)
              /\ l' = l + 1 /\ UNCHANGED tid)
          \/ TAccept
 TSpec == TInit /\ [][TNext]_tvars
